@@ -23,6 +23,17 @@ theorem C20_repeatable (ops : List ROp) (op : ROp) (s : TokState) :
     | cons o os ih => rw [List.foldl_cons, C20_frame]; exact ih
   rw [this]
 
+/-- C20 (history independence): what an operation returns, and the token it leaves, do not depend on which
+    read-only operations ran on the token before — an authorization check after a check with another loader
+    or with hooked arguments, a read after a seal, … (no memoised state, no transient reassignment) -/
+theorem C20_history_independent (x y : ROp) (s : TokState) :
+    runOp y (runOp x s).1 = runOp y s := by rw [C20_frame]
+
+/-- the spare capacity of a shared delegation's policy slice and the proof links are part of the frame -/
+theorem C20_frame_spare (op : ROp) (s : TokState) :
+    (runOp op s).1.dlgPolicySpare = s.dlgPolicySpare ∧ (runOp op s).1.proofs = s.proofs := by
+  rw [C20_frame]; exact ⟨rfl, rfl⟩
+
 /-- in particular the key order seen by `Iter()` is the insertion order, before and after sealing or checking -/
 theorem C20_iter_order_stable (s : TokState) :
     (argsIter (sealReads (executionAllowedArgs s).1).1).2 = (argsIter s).2 := rfl
